@@ -1,41 +1,368 @@
+// gosym: solver-based checking of go-jsonschema (see /verif/DESIGN.md).
+//
+//	gosym check <PROPERTY> [--tier quick|thorough]
+//	gosym replay <dir>
+//	gosym explore <pkgdir:Func> [k=v ...]      (debugging)
 package main
 
 import (
+	"crypto/sha1"
 	"encoding/json"
 	"fmt"
 	"os"
+	"path/filepath"
+	"sort"
+	"strconv"
+	"strings"
 	"time"
 
 	"gosym/interp"
 )
 
+const (
+	verifDir   = "/verif"
+	engineDir  = "/verif/engine"
+	repoDir    = "/repo"
+	harnessDir = "/verif/harness"
+)
+
 func main() {
-	m, err := interp.Load("/verif/engine", "/repo", "/verif/harness")
+	if len(os.Args) < 2 {
+		usage()
+	}
+	switch os.Args[1] {
+	case "check":
+		os.Exit(cmdCheck(os.Args[2:]))
+	case "replay":
+		os.Exit(cmdReplay(os.Args[2:]))
+	case "explore":
+		os.Exit(cmdExplore(os.Args[2:]))
+	case "list":
+		var ids []string
+		for id := range properties {
+			ids = append(ids, id)
+		}
+		sort.Strings(ids)
+		fmt.Println(strings.Join(ids, " "))
+	default:
+		usage()
+	}
+}
+
+func usage() {
+	fmt.Fprintln(os.Stderr, "usage: gosym check <PROP> [--tier quick|thorough] | replay <dir> | explore <pkgdir:Func>")
+	os.Exit(2)
+}
+
+func harnessFunc(h string) string {
+	parts := strings.SplitN(h, ":", 2)
+	pkg := interp.RepoModule
+	if parts[0] != "." && parts[0] != "" {
+		pkg += "/" + parts[0]
+	}
+	return pkg + "." + parts[1]
+}
+
+func envInt(name string, def int) int {
+	if v := os.Getenv(name); v != "" {
+		if n, err := strconv.Atoi(v); err == nil {
+			return n
+		}
+	}
+	return def
+}
+
+func cmdExplore(args []string) int {
+	if len(args) < 1 {
+		usage()
+	}
+	m, err := interp.Load(engineDir, repoDir, harnessDir)
 	if err != nil {
 		fmt.Println(err)
-		os.Exit(2)
+		return 2
 	}
 	fmt.Println("load", m.LoadTime)
+	params := map[string]int{}
+	mapOrd := 0
+	for _, kv := range args[1:] {
+		p := strings.SplitN(kv, "=", 2)
+		n, _ := strconv.Atoi(p[1])
+		if p[0] == "MAPORD" {
+			mapOrd = n
+			continue
+		}
+		params[p[0]] = n
+	}
+	if mapOrd > 0 {
+		m.MapOrderChoice, m.MapOrderMaxLen = true, mapOrd
+	}
 	t0 := time.Now()
-	pool, st, err := m.Explore(os.Args[1], interp.ExploreOpts{Workers: 16})
+	pool, st, err := m.Explore(harnessFunc(args[0]), interp.ExploreOpts{Workers: envInt("GOSYM_WORKERS", 16), Params: params, Solver: os.Getenv("GOSYM_SOLVER"),
+		MaxPaths: envInt("GOSYM_MAXPATHS", 0)})
 	if err != nil {
 		fmt.Println(err)
-		os.Exit(2)
+		return 2
 	}
 	fmt.Printf("paths=%d wall=%v solver=%+v\n", len(pool.Results), time.Since(t0), st)
 	out := map[string]int{}
+	verbose := os.Getenv("GOSYM_VERBOSE") != ""
 	for _, r := range pool.Results {
 		out[r.Outcome]++
-		if r.Outcome != "ok" {
-			fmt.Println(r.Outcome, r.Msg, r.Stack)
+		if r.Outcome != "ok" && r.Outcome != "infeasible" {
+			fmt.Println(r.Outcome, r.Msg, tail(r.Stack, 6), r.Notes)
 		}
 		for _, c := range r.Checks {
 			out[c.ID+":"+c.Status+":"+c.Dev]++
-			if c.Status == "violated" || c.Status == "unknown" {
-				b, _ := json.Marshal(c)
-				fmt.Println(string(b))
+			if c.Status == "violated" || c.Status == "unknown" || (verbose && c.Status == "deviation") {
+				b, _ := json.Marshal(interp.ReadableModel(c.Model))
+				fmt.Println(c.ID, c.Status, c.Dev, c.Note, r.Notes, string(b))
+			}
+		}
+		if verbose {
+			for k, v := range r.Emits {
+				fmt.Printf("--- emit %s (script %v)\n%s\n", k, r.Script, v)
 			}
 		}
 	}
-	fmt.Println(out)
+	keys := make([]string, 0, len(out))
+	for k := range out {
+		keys = append(keys, k)
+	}
+	sort.Strings(keys)
+	for _, k := range keys {
+		fmt.Printf("  %-70s %d\n", k, out[k])
+	}
+	if interp.LastSolverError != "" {
+		fmt.Println("last solver error:", interp.LastSolverError[:min(len(interp.LastSolverError), 2000)])
+	}
+	return 0
+}
+
+func tail(s []string, n int) []string {
+	if len(s) > n {
+		return s[len(s)-n:]
+	}
+	return s
+}
+
+// ---- known findings ----
+
+type Finding struct {
+	Property string          `json:"property"`
+	ID       string          `json:"id"`     // deviation name
+	Status   string          `json:"status"` // open | fixed
+	What     string          `json:"what"`
+	Commit   string          `json:"commit,omitempty"`
+	Witness  json.RawMessage `json:"witness,omitempty"`
+}
+
+type FindingsFile struct {
+	Findings []Finding `json:"findings"`
+	Fixed    []string  `json:"fixed,omitempty"`
+}
+
+func loadFindings() FindingsFile {
+	var f FindingsFile
+	b, err := os.ReadFile(filepath.Join(verifDir, "known_findings.json"))
+	if err == nil {
+		_ = json.Unmarshal(b, &f)
+	}
+	return f
+}
+
+func (f FindingsFile) open(prop, dev string) *Finding {
+	for i := range f.Findings {
+		x := &f.Findings[i]
+		if x.Property == prop && x.ID == dev && x.Status == "open" {
+			return x
+		}
+	}
+	return nil
+}
+
+// ---- check ----
+
+type caseKey struct{ unit, check, dev, status string }
+
+type caseRec struct {
+	key   caseKey
+	paths []*interp.PathResult
+	idx   []int // index of the check within the path
+}
+
+func cmdCheck(args []string) int {
+	if len(args) < 1 {
+		usage()
+	}
+	id := args[0]
+	tier := os.Getenv("VERIF_TIER")
+	if tier == "" {
+		tier = "quick"
+	}
+	for i := 1; i < len(args); i++ {
+		if args[i] == "--tier" && i+1 < len(args) {
+			tier = args[i+1]
+			i++
+		}
+	}
+	seed := envInt("VERIF_SEED", 0)
+	prop := properties[id]
+	if prop == nil {
+		fmt.Fprintf(os.Stderr, "unknown property %s\n", id)
+		return 2
+	}
+	t0 := time.Now()
+	m, err := interp.Load(engineDir, repoDir, harnessDir)
+	if err != nil {
+		fmt.Println("ENGINE-ERROR: cannot load /repo with harness overlay:", err)
+		return 2
+	}
+	findings := loadFindings()
+	ev := newEvidence(id, tier, seed)
+	ev.LoadS = m.LoadTime.Seconds()
+	exit := 0
+	violationLines := []string{}
+	knownSeen := map[string]string{}
+	workers := envInt("GOSYM_WORKERS", 16)
+
+	for _, u := range prop.Units {
+		if u.OnlyThorough && tier != "thorough" {
+			continue
+		}
+		params := u.Quick
+		timeout := 10 * time.Second
+		if tier == "thorough" {
+			if u.Thor != nil {
+				params = u.Thor
+			}
+			timeout = 60 * time.Second
+		}
+		m.MapOrderChoice, m.MapOrderMaxLen = u.MapOrd > 0, u.MapOrd
+		tu := time.Now()
+		pool, st, err := m.Explore(harnessFunc(u.Harness), interp.ExploreOpts{Workers: workers, Params: params, Timeout: timeout, MaxPaths: u.MaxPaths, Solver: os.Getenv("GOSYM_SOLVER")})
+		if err != nil {
+			fmt.Println("ENGINE-ERROR:", err)
+			return 2
+		}
+		ue := ev.addUnit(u, params, pool, st, time.Since(tu))
+		cases := map[caseKey]*caseRec{}
+		var order []caseKey
+		add := func(k caseKey, r *interp.PathResult, ci int) {
+			c := cases[k]
+			if c == nil {
+				c = &caseRec{key: k}
+				cases[k] = c
+				order = append(order, k)
+			}
+			c.paths = append(c.paths, r)
+			c.idx = append(c.idx, ci)
+		}
+		for _, r := range pool.Results {
+			switch r.Outcome {
+			case "unsupported", "bound":
+				ue.uncovered(r.Outcome + ": " + r.Msg)
+			case "panic", "exit":
+				if u.Panic == "violation" {
+					add(caseKey{u.Name, "panic", "", "panic"}, r, -1)
+				} else {
+					ue.uncovered("panic in code under test (reported by C18/C19 harnesses): " + r.Msg)
+				}
+			}
+			for ci, c := range r.Checks {
+				switch c.Status {
+				case "violated":
+					add(caseKey{u.Name, c.ID, "", "violated"}, r, ci)
+				case "deviation":
+					add(caseKey{u.Name, c.ID, c.Dev, "deviation"}, r, ci)
+				case "unknown":
+					ue.uncovered("solver inconclusive on " + c.ID + ": " + c.Note)
+				}
+			}
+		}
+		if pool.Dropped > 0 {
+			ue.uncovered(fmt.Sprintf("path budget reached: %d queued prefixes not explored", pool.Dropped))
+		}
+		// replay representatives of every case
+		for _, k := range order {
+			c := cases[k]
+			// representative choice: first path in script order, rotated by the seed
+			pick := 0
+			if len(c.paths) > 1 && seed != 0 {
+				pick = seed % len(c.paths)
+			}
+			r, ci := c.paths[pick], c.idx[pick]
+			rp, err := makeReplay(m, id, u, r, ci)
+			if err != nil {
+				ue.uncovered("replay construction failed for " + k.check + ": " + err.Error())
+				continue
+			}
+			res := runReplay(rp)
+			ev.Replays++
+			switch {
+			case !res.Ran:
+				ue.uncovered("native replay did not run for " + k.check + ": " + res.Detail)
+				ue.Spurious++
+			case k.status == "panic":
+				if res.Panicked {
+					ev.ReplaysReproduced++
+					violationLines = append(violationLines, fmt.Sprintf("VIOLATION property=%s replay=%s", id, rp.Dir))
+					ue.violation(k, len(c.paths), rp.Dir, r.Msg)
+				} else {
+					ue.Spurious++
+					ue.uncovered("panic path did not reproduce natively (engine infidelity): " + r.Msg)
+				}
+			case res.CheckFailed(k.check):
+				ev.ReplaysReproduced++
+				if k.status == "deviation" && res.DevMatched(k.check, k.dev) {
+					if f := findings.open(id, k.dev); f != nil {
+						knownSeen[k.dev] = f.What
+						ue.known(k, len(c.paths), rp.Dir)
+						continue
+					}
+				}
+				violationLines = append(violationLines, fmt.Sprintf("VIOLATION property=%s replay=%s", id, rp.Dir))
+				ue.violation(k, len(c.paths), rp.Dir, "")
+			default:
+				ue.Spurious++
+				ue.uncovered("solver model for " + k.check + " did not reproduce natively (SPURIOUS; encoding or stub error): " + rp.Dir)
+			}
+		}
+	}
+	ev.finish(m, prop, time.Since(t0))
+	var devs []string
+	for d := range knownSeen {
+		devs = append(devs, d)
+	}
+	sort.Strings(devs)
+	for _, d := range devs {
+		fmt.Printf("KNOWN-FINDING: property=%s %s: %s\n", id, d, knownSeen[d])
+	}
+	for _, u := range ev.Units {
+		for _, msg := range u.Uncovered {
+			fmt.Printf("INCONCLUSIVE property=%s unit=%s %s\n", id, u.Name, msg)
+		}
+	}
+	sort.Strings(violationLines)
+	for _, l := range violationLines {
+		fmt.Println(l)
+		exit = 1
+	}
+	ev.Violations = len(violationLines)
+	if err := ev.write(); err != nil {
+		fmt.Println("ENGINE-ERROR: cannot write evidence:", err)
+		return 2
+	}
+	fmt.Printf("%s tier=%s: %d paths, %d forks, %d checks discharged, %d queries (%d sat / %d unsat / %d unknown), solver %.1fs, wall %.1fs, violations=%d\n",
+		id, tier, ev.Coverage.States, ev.Coverage.Transitions, ev.ChecksPassed, ev.Queries.Total, ev.Queries.Sat, ev.Queries.Unsat, ev.Queries.Unknown,
+		ev.Queries.SolverS, time.Since(t0).Seconds(), ev.Violations)
+	return exit
+}
+
+func hashOf(parts ...string) string {
+	h := sha1.New()
+	for _, p := range parts {
+		h.Write([]byte(p))
+		h.Write([]byte{0})
+	}
+	return fmt.Sprintf("%x", h.Sum(nil))[:12]
 }
